@@ -424,8 +424,8 @@ func TestConcurrentDelivery(t *testing.T) {
 			c.PerPub = 100 + rng.Intn(200)
 		}
 		if r%6 == 5 { // one round in six with the broker's read-rate limiter engaged
-			c.ReadRate = 400
-			c.PerPub = 150 + rng.Intn(150)
+			c.ReadRate = 60
+			c.PerPub = 120 + rng.Intn(100)
 		}
 		if msg := runCase(c); msg != "" {
 			vkit.ReportFailure(t.Name(), c, msg, "")
